@@ -50,6 +50,7 @@ type locGen struct {
 	sem      map[string]interface{} // script table shared by the rules of a case
 	rules    map[string]map[string]interface{} // last rule generated per id (for vetoed replacements)
 	hooks    bool                              // the locations of this case carry hooks (cron + veto)
+	cronTTL  bool                              // cronhooks profile: this case has scheduled rules that expire (with sleeps)
 }
 
 func init() {
@@ -230,6 +231,10 @@ func (lg *locGen) op() map[string]interface{} {
 		if lg.profile == "cronhooks" {
 			if r.Intn(3) != 0 {
 				rule = lg.scheduledRule()
+			}
+			if lg.cronTTL && r.Intn(4) != 0 {
+				// a scheduled rule that expires: its job must go when it is purged (D28c)
+				lg.expiry(rule)
 			}
 			if r.Intn(3) == 0 {
 				rule["deleteWith"] = []interface{}{lg.ids[r.Intn(len(lg.ids))]}
@@ -464,6 +469,12 @@ func genLocCase(r *rand.Rand, prof string) Case {
 		lg.timeUnit = 1
 		nops = 14 + r.Intn(8)
 	}
+	if prof == "cronhooks" && r.Intn(6) == 0 {
+		// one case in six: rules (scheduled or not) that expire within seconds, and sleeps
+		lg.cronTTL = true
+		lg.timeUnit = 1
+		nops = 12 + r.Intn(8)
+	}
 	var ops []interface{}
 	if prof == "fuzz" {
 		for k := 0; k < 8+r.Intn(6); k++ {
@@ -579,6 +590,18 @@ func genLocCase(r *rand.Rand, prof string) Case {
 			if str(o["op"]) == "reload" || r.Intn(5) == 0 {
 				ops = append(ops, map[string]interface{}{"loc": o["loc"], "op": "storeids"})
 			}
+		}
+		if lg.cronTTL && r.Intn(3) == 0 {
+			// a read that can meet an expired scheduled rule: the purge must unschedule it
+			rd := map[string]interface{}{"loc": o["loc"], "op": "getfact", "id": lg.ids[r.Intn(len(lg.ids))]}
+			if r.Intn(2) == 0 {
+				rd = map[string]interface{}{"loc": o["loc"], "op": "search", "inherited": false,
+					"pattern": map[string]interface{}{"rule": "?r"}}
+			}
+			if r.Intn(2) == 0 {
+				rd["sleep"] = int64(1 + r.Intn(2))
+			}
+			ops = append(ops, rd)
 		}
 	}
 	c := Case{"profile": prof, "locs": locs, "ops": ops}
